@@ -25,7 +25,7 @@ for id_ in ids:
     if 'first_result' not in meta:
         meta['first_result'] = rows.get(id_) or R4.get(id_) or 'caught at once'
         json.dump(meta, open(mp, 'w'), indent=1, ensure_ascii=False)
-    r = re.search(r'round (\d)', meta.get('origin', ''))
+    r = re.search(r'round (\d+)', meta.get('origin', ''))
     rounds[id_] = int(r.group(1)) if r else 1
     det = meta.get('detected_by', {})
     keys = det.get('violation_keys', [])
